@@ -52,9 +52,14 @@ Notation "'do' ' p <- r ; k" := (bind r (fun x => match x with p => k end))
 Definition key {A} (o : option A) : res A :=        (* d[k] : KeyError when absent *)
   match o with Some a => Ok a | None => Raise EKeyError end.
 
-Record cfg := mkCfg { root_free : bool; xor_old : bool }.
-Definition unchanged : cfg := mkCfg true true.
-Definition repaired : cfg := mkCfg false false.
+Record cfg := mkCfg {
+  root_free : bool; xor_old : bool;            (* pinned tree: true / true; repaired by C20-1 / C20-2 *)
+  zero_first : bool;                            (* C20-3: moves into `zero` are emitted up front and kept out of the graph *)
+  cnt_by_reg : bool;                            (* C20-4: unprocessed_children is keyed by register, not by SSA value *)
+  width_by_dst : bool }.                        (* C20-5: the width of a move is looked up by its output register *)
+Definition unchanged : cfg := mkCfg true true false false false.
+Definition repaired : cfg := mkCfg false false false false false.      (* C20-1 + C20-2 *)
+Definition repaired_all : cfg := mkCfg false false true true true.      (* ... + C20-3, C20-4, C20-5 *)
 
 (* ------------------------------------------------------------------ ParallelMovOp.verify_ *)
 Fixpoint nodupb (l : list Z) : bool :=
@@ -128,6 +133,41 @@ Definition loop1 (ms : list move) : tables :=
     (mkT (fun r => existsb (Z.eqb r) (map m_dst ms)) (repeat None (length ms))
          (fun _ => None) (fun _ => 0)).
 
+(* C20-3: a non-trivial move into `zero` takes no part in the first loop (`continue`) *)
+Definition zero_move (m : move) : bool := (m_dst m =? ZERO) && negb (m_src m =? m_dst m).
+Definition loop1z (ms : list move) : tables :=
+  fold_left loop1_step (filter (fun im => negb (zero_move (snd im))) (combine (seq 0 (length ms)) ms))
+    (mkT (fun r => existsb (Z.eqb r) (map m_dst ms)) (repeat None (length ms))
+         (fun _ => None) (fun _ => 0)).
+(* ... but its move is emitted there: results[idx] = _insert_mv_op(src, zero, width) *)
+Fixpoint zero_pass (ims : list (nat * move)) (e : list instr) (rs : list (option value))
+  : res (list instr * list (option value)) :=
+  match ims with
+  | [] => Ok (e, rs)
+  | (idx, m) :: r =>
+      if zero_move m then
+        do '(e1, nv) <- insert_mv e (m_value m) (m_dst m) (m_w m);
+        zero_pass r e1 (lset idx (Some nv) rs)
+      else zero_pass r e rs
+  end.
+(* C20-4: the counter keyed by register *)
+Definition children_by_reg (ims : list (nat * move)) : Z -> Z :=
+  fold_left (fun f im => let m := snd im in
+                         if m_src m =? m_dst m then f else upd f (m_src m) (f (m_src m) + 1)) ims (fun _ => 0).
+(* C20-5: width_by_dst = dict(zip(dst_types, input_widths)) *)
+Definition width_by_dst_tbl (ms : list move) : Z -> option Z :=
+  fold_left (fun f m => upd f (m_dst m) (Some (m_w m))) ms (fun _ => None).
+
+Definition ckey (c : cfg) (v : value) : Z := if cnt_by_reg c then vreg v else vid v.
+Definition wlook (c : cfg) (ms : list move) (src : value) (dst : reg) : option Z :=
+  if width_by_dst c then width_by_dst_tbl ms dst else src_type_by_src ms (vid src).
+Definition kept (c : cfg) (ms : list move) : list (nat * move) :=
+  if zero_first c then filter (fun im => negb (zero_move (snd im))) (combine (seq 0 (length ms)) ms)
+  else combine (seq 0 (length ms)) ms.
+Definition tables_of (c : cfg) (ms : list move) : tables := if zero_first c then loop1z ms else loop1 ms.
+Definition children_of (c : cfg) (ms : list move) : Z -> Z :=
+  if cnt_by_reg c then children_by_reg (kept c ms) else children0 (tables_of c ms).
+
 (* ------------------------------------------------------------------ the rewrite state *)
 Record state := mkS {
   em : list instr;                 (* operations inserted so far, in order *)
@@ -138,10 +178,12 @@ Definition free_of (fi ff : list reg) (r : reg) : list reg := if is_float r then
 
 Section Lower.
   Variable c : cfg.
+  Variable ck : value -> Z.                    (* key of unprocessed_children *)
+  Variable wl : value -> reg -> option Z.      (* width of the move src -> dst *)
   Variable ms : list move.
-  Let P := src_by_dst (loop1 ms).
+  Variable tb : tables.                        (* the tables of the first loop *)
+  Let P := src_by_dst tb.
   Let oidx := output_index ms.
-  Let wof := src_type_by_src ms.
 
   (* while dst_type in src_by_dst_type: ...   returns the state and the final dst_type *)
   Fixpoint walk (fuel : nat) (cur : reg) (s : state) : res (state * reg) :=
@@ -151,14 +193,14 @@ Section Lower.
         match P cur with
         | None => Ok (s, cur)
         | Some src =>
-            do w <- key (wof (vid src));
+            do w <- key (wl src cur);
             do '(e1, nv) <- insert_mv (em s) src cur w;
             do i <- key (oidx cur);
             match nth_error (results s) i with
             | Some None =>
-                let ch := upd (children s) (vid src) (children s (vid src) - 1) in
+                let ch := upd (children s) (ck src) (children s (ck src) - 1) in
                 let s1 := mkS e1 (lset i (Some nv) (results s)) ch in
-                if negb (ch (vid src) =? 0) then Ok (s1, cur) else walk f (vreg src) s1
+                if negb (ch (ck src) =? 0) then Ok (s1, cur) else walk f (vreg src) s1
             | _ => Raise EAssertion
             end
         end
@@ -216,7 +258,7 @@ Section Lower.
     | S f =>
         if cur =? stop then Ok (e, rs) else
         do src <- key (P cur);
-        do w <- key (wof (vid src));
+        do w <- key (wl src cur);
         do '(e1, nv) <- insert_mv e src cur w;
         do i <- key (oidx cur);
         break_chain f stop e1 (lset i (Some nv) rs) (vreg src)
@@ -253,17 +295,23 @@ Section Lower.
   (* match_and_rewrite after verification; `free` = op.free_registers (or [] when absent).
      rewriter.replace(op, (), results): a result that is still None is erased, which raises
      ValueError when the result has a use (the harness gives every result a use). *)
-  Definition rewrite (free : list reg) : res (list instr * list value) :=
-    if negb (forallb (fun m => is_alloc (m_src m) && is_alloc (m_dst m)) ms) then Raise EPassFailed else
-    let t := loop1 ms in
-    let s0 := mkS [] (results0 t) (children0 t) in
-    do '(s2, fi, ff) <- fold_left (loop2_step (leaves t)) (map m_dst ms)
-                          (Ok (s0, filter (fun r => negb (is_float r)) free, filter is_float free));
-    do s3 <- fold_left (loop3_step fi ff) (combine (seq 0 (length ms)) ms) (Ok s2);
-    if forallb (fun o => match o with Some _ => true | None => false end) (results s3)
-    then Ok (em s3, flat_map (fun o => match o with Some v => [v] | None => [] end) (results s3))
-    else Raise EValueError.
 End Lower.
+
+(* match_and_rewrite after verification; `free` = op.free_registers (or [] when absent).
+   rewriter.replace(op, (), results): a result that is still None is erased, which raises
+   ValueError when the result has a use (the harness gives every result a use). *)
+Definition rewrite (c : cfg) (ms : list move) (free : list reg) : res (list instr * list value) :=
+  if negb (forallb (fun m => is_alloc (m_src m) && is_alloc (m_dst m)) ms) then Raise EPassFailed else
+  let t := tables_of c ms in
+  do '(e0, r0) <- (if zero_first c then zero_pass (combine (seq 0 (length ms)) ms) [] (results0 t)
+                   else Ok ([], results0 t));
+  let s0 := mkS e0 r0 (children_of c ms) in
+  do '(s2, fi, ff) <- fold_left (loop2_step c (ckey c) (wlook c ms) ms t (leaves t)) (map m_dst ms)
+                        (Ok (s0, filter (fun r => negb (is_float r)) free, filter is_float free));
+  do s3 <- fold_left (loop3_step c (wlook c ms) ms t fi ff) (combine (seq 0 (length ms)) ms) (Ok s2);
+  if forallb (fun o => match o with Some _ => true | None => false end) (results s3)
+  then Ok (em s3, flat_map (fun o => match o with Some v => [v] | None => [] end) (results s3))
+  else Raise EValueError.
 
 (* op.verify() followed by the pass *)
 Definition lower (c : cfg) (ms : list move) (free : list reg) : res (list instr * list value) :=
